@@ -58,10 +58,11 @@ def run_job(args):
         d['expect'] = getattr(ob, 'expect', None)
         d['contract'] = c.name
         d['config'] = cfg.get('name', '')
+        d['bounded'] = c.bounded
         obs.append(d)
     return dict(contract=c.name, config=cfg.get('name', ''), status=r.status, detail=r.detail, paths=r.paths,
                 infeasible=r.infeasible, seconds=time.time() - t0, obligations=obs, files=files, trace=r.trace,
-                targets=c.targets, ci=ci, ki=ki)
+                targets=c.targets, ci=ci, ki=ki, bounded=c.bounded)
 
 
 def job_weight(reg, job):
@@ -142,7 +143,7 @@ def main(argv=None):
             errors.append('%s[%s]: %s' % (r['contract'], r['config'], r['detail']))
         for ob in r['obligations']:
             clauses.setdefault(clause_id(ob), []).append(ob)
-    n_ob = n_proved = n_canary = 0
+    n_ob = n_proved = n_canary = n_bounded = n_bounded_ok = 0
     violations, known_hits, canary_fail = [], [], []
     per_clause = {}
     for cid, obs in sorted(clauses.items()):
@@ -155,16 +156,22 @@ def main(argv=None):
             per_clause[cid] = 'canary-refuted' if cid not in canary_fail else 'canary-NOT-refuted'
             continue
         verdicts = set(o['verdict'] for o in obs)
-        n_ob += len(obs)
-        n_proved += sum(1 for o in obs if o['verdict'] == 'proved')
+        if obs[0].get('bounded'):
+            # bounded stand-in: reported and able to raise violations, but never counted among the proved obligations
+            n_bounded += len(obs)
+            n_bounded_ok += sum(1 for o in obs if o['verdict'] == 'proved')
+        else:
+            n_ob += len(obs)
+            n_proved += sum(1 for o in obs if o['verdict'] == 'proved')
         if 'refuted' in verdicts:
             bad = [o for o in obs if o['verdict'] == 'refuted'][0]
             k = match_known(known, cid)
             if k is not None:
                 known_hits.append((cid, k, bad))
                 per_clause[cid] = 'known-finding'
-                n_ob -= len(obs)
-                n_proved -= sum(1 for o in obs if o['verdict'] == 'proved')
+                if not obs[0].get('bounded'):
+                    n_ob -= len(obs)
+                    n_proved -= sum(1 for o in obs if o['verdict'] == 'proved')
             else:
                 violations.append((cid, bad))
                 per_clause[cid] = 'refuted'
@@ -265,6 +272,8 @@ def main(argv=None):
                                             seconds=round(r['seconds'], 2)) for r in results],
                             clauses=per_clause, canaries=n_canary, canaries_refuted=n_canary - len(canary_fail),
                             backends=sorted(set(o['backend'] for obs in clauses.values() for o in obs)),
+                            bounded_stand_ins=dict(note='checked for the stated bound only; NOT counted in obligations/discharged', obligations=n_bounded, passed=n_bounded_ok,
+                                                   contracts=sorted(set('%s[%s]: %s' % (r['contract'], r['config'], r['bounded']) for r in results if r.get('bounded')))),
                             slowest_obligations=[dict(obligation=c, seconds=t, backends=b) for t, c, b in slowest],
                             solver_seconds=round(sum(o['seconds'] for obs in clauses.values() for o in obs), 2),
                             known_findings=[dict(obligation=c, what=k.get('what')) for c, k, _ in known_hits],
@@ -275,8 +284,9 @@ def main(argv=None):
     json.dump(ev, open(os.path.join(HERE, 'evidence', '%s.json' % prop), 'w'), indent=1, default=str)
     for l in out_lines:
         print(l)
-    print('%s tier=%s: %d obligations, %d proved, %d canaries (%d refuted), %d known findings, %d violations, %d undecided, %.1fs -> exit %d'
-          % (prop, tier, n_ob, n_proved, n_canary, n_canary - len(canary_fail), len(known_hits), nviol, len(undecided), wall, rc))
+    print('%s tier=%s: %d obligations, %d proved, %d canaries (%d refuted), %d known findings, %d violations, %d undecided%s, %.1fs -> exit %d'
+          % (prop, tier, n_ob, n_proved, n_canary, n_canary - len(canary_fail), len(known_hits), nviol, len(undecided),
+             (', bounded stand-ins %d/%d' % (n_bounded_ok, n_bounded)) if n_bounded else '', wall, rc))
     if a.v:
         for cid, st in sorted(per_clause.items()):
             if not cid.split('/')[-1].startswith('side:') or st != 'proved':
